@@ -47,13 +47,8 @@ pub fn eval(case: &str) -> Out {
         fail = Some("formula|TxIn::issuance_ids does not follow the derivation (plain index, entropy, 0 / 1 / 2)".to_string());
     } else if (pa, pt) != (a, t) {
         // known class F10: zero nonce and a flag bit in the serialized index
-        // the finding is exactly: the PSET view hashes the serialized index (plain index | pegin bit 30 | issuance bit 31)
-        let mut flagged = i.previous_output.vout; if i.is_pegin { flagged |= 1 << 30; } if i.has_issuance() { flagged |= 1 << 31; }
-        let mut opf = Vec::new(); opf.extend_from_slice(&i.previous_output.txid.to_byte_array()); opf.extend_from_slice(&flagged.to_le_bytes());
-        let ef = fmr(&[sha256d::Hash::hash(&opf).to_byte_array(), iss.asset_entropy]);
-        let f10 = zero_nonce && flagged != i.previous_output.vout && pa.to_byte_array() == fmr(&[ef, [0u8; 32]]) && pt.to_byte_array() == fmr(&[ef, second]);
-        if f10 { fail = Some("F10-pset-issuance-ids-flag-bits|pset::Input::issuance_ids hashes the outpoint index with the pegin/issuance flag bits".to_string()); }
-        else { fail = Some("pset-view|the PSET input yields different ids".to_string()); }
+        // (the flagged-index defect F10 was repaired by c21fbfc; a difference here is a violation again)
+        { fail = Some("pset-view|the PSET input yields different ids".to_string()); }
     } else if let Some(e) = ex { if e != (a, t) { fail = Some("extract-view|the extracted transaction's input yields different ids".to_string()); } }
     let show = |p: (elements::AssetId, elements::AssetId)| format!("{} {}", hex(&p.0.to_byte_array()), hex(&p.1.to_byte_array()));
     Out { result: format!("ok {} {} {}", show((a, t)), show((pa, pt)), ex.map(show).unwrap_or_else(|| "- -".into())), pred_fail: fail }
